@@ -3,6 +3,7 @@ import OdakProofs.Lemmas.PropagateLemmas
 import OdakProofs.Lemmas.NumpyPipelines
 import OdakProofs.Props.C08
 import OdakProofs.Lemmas.GenKernels
+import OdakProofs.Lemmas.GenPipelines
 
 /-! # C02 – propagation distances compose: 0 is the identity, −z undoes z, z1 then z2 = z1 + z2 -/
 namespace Odak
@@ -189,5 +190,84 @@ theorem C02_gen_band_limited_composes_on_common_band (n m : Nat) (dx lam z1 z2 :
 theorem C02_gen_back_and_forth_product (n m : Nat) (dx lam z0 d : ℝ) :
     CGrid.mul (asKernelT n m dx lam (-(z0 - d))) (asKernelT n m dx lam z0) = asKernelT n m dx lam d := by
   simp only [gen_asKernelT_eq]; exact C02_back_and_forth_product n m dx lam z0 d
+
+end Odak
+
+/-! ## The same statements for the PIPELINES regenerated from the Python source on this run
+  (`OdakModel/Generated/Pipelines.lean`, tied to the hand model by `OdakProofs/Lemmas/GenPipelines.lean`). -/
+namespace Odak
+open Gen
+
+/-- regenerated torch `angular_spectrum`, `transfer_function_fresnel` (default aperture, no padding) and NumPy `angular_spectrum`:
+    z1 then z2 is one propagation by z1 + z2, distance 0 is the identity, −z undoes z -/
+theorem C02_gen_pipelines_compose {n m : Nat} (u : CGrid ℝ n m) (dx lam k z1 z2 : ℝ) :
+    (angularSpectrumT (angularSpectrumT u (CGrid.const 1) dx lam z1) (CGrid.const 1) dx lam z2
+      = angularSpectrumT u (CGrid.const 1) dx lam (z1 + z2)) ∧
+    (transferFunctionFresnelT (transferFunctionFresnelT u (CGrid.const 1) dx lam z1) (CGrid.const 1) dx lam z2
+      = transferFunctionFresnelT u (CGrid.const 1) dx lam (z1 + z2)) ∧
+    (angularSpectrumN (angularSpectrumN u dx lam k z1) dx lam k z2 = angularSpectrumN u dx lam k (z1 + z2)) ∧
+    angularSpectrumT u (CGrid.const 1) dx lam 0 = u ∧ transferFunctionFresnelT u (CGrid.const 1) dx lam 0 = u ∧
+    angularSpectrumN u dx lam k 0 = u ∧
+    angularSpectrumT (angularSpectrumT u (CGrid.const 1) dx lam z1) (CGrid.const 1) dx lam (-z1) = u ∧
+    transferFunctionFresnelT (transferFunctionFresnelT u (CGrid.const 1) dx lam z1) (CGrid.const 1) dx lam (-z1) = u ∧
+    angularSpectrumN (angularSpectrumN u dx lam k z1) dx lam k (-z1) = u := by
+  have ha : ∀ (v : CGrid ℝ n m) (z : ℝ), angularSpectrumT v (CGrid.const 1) dx lam z = torchAS v dx lam z :=
+    fun v z => (gen_torch_methods_eq v dx lam z 0 0 0 0).1
+  have ht : ∀ (v : CGrid ℝ n m) (z : ℝ), transferFunctionFresnelT v (CGrid.const 1) dx lam z = torchTF v dx lam z :=
+    fun v z => (gen_torch_methods_eq v dx lam z 0 0 0 0).2.2.1
+  simp only [ha, ht, gen_angularSpectrumN_eq]
+  obtain ⟨a, b, c⟩ := C02_two_steps_compose u dx lam k z1 z2
+  obtain ⟨a0, b0, c0⟩ := C02_zero_distance_identity u dx lam k
+  obtain ⟨a1, b1, c1⟩ := C02_negative_distance_undoes u dx lam k z1
+  exact ⟨a, b, c, a0, b0, c0, a1, b1, c1⟩
+
+/-- every finite sequence of steps through the regenerated pipelines equals one step by the sum of the distances -/
+theorem C02_gen_step_sequences_compose {n m : Nat} (u : CGrid ℝ n m) (dx lam k : ℝ) (zs : List ℝ) :
+    propagateSeq (fun z v => angularSpectrumT v (CGrid.const 1) dx lam z) zs u = angularSpectrumT u (CGrid.const 1) dx lam zs.sum ∧
+    propagateSeq (fun z v => transferFunctionFresnelT v (CGrid.const 1) dx lam z) zs u
+      = transferFunctionFresnelT u (CGrid.const 1) dx lam zs.sum ∧
+    propagateSeq (fun z v => angularSpectrumN v dx lam k z) zs u = angularSpectrumN u dx lam k zs.sum := by
+  have ha : ∀ (v : CGrid ℝ n m) (z : ℝ), angularSpectrumT v (CGrid.const 1) dx lam z = torchAS v dx lam z :=
+    fun v z => (gen_torch_methods_eq v dx lam z 0 0 0 0).1
+  have ht : ∀ (v : CGrid ℝ n m) (z : ℝ), transferFunctionFresnelT v (CGrid.const 1) dx lam z = torchTF v dx lam z :=
+    fun v z => (gen_torch_methods_eq v dx lam z 0 0 0 0).2.2.1
+  simp only [ha, ht, gen_angularSpectrumN_eq]
+  exact C02_step_sequences_compose u dx lam k zs
+
+/-- the regenerated NumPy `transfer_function_fresnel` composes, has distance 0 as identity, and −z undoes z -/
+theorem C02_gen_np_tf_composes {n m : Nat} (u : CGrid ℝ n m) (dx lam k z1 z2 : ℝ) (hdx : 0 < dx) (hm : 0 < m) :
+    transferFunctionFresnelN (transferFunctionFresnelN u dx lam k z1) dx lam k z2 = transferFunctionFresnelN u dx lam k (z1 + z2) ∧
+    transferFunctionFresnelN u dx lam k 0 = u ∧
+    transferFunctionFresnelN (transferFunctionFresnelN u dx lam k z1) dx lam k (-z1) = u := by
+  simp only [gen_transferFunctionFresnelN_eq]
+  exact ⟨C02_np_tf_composes u dx lam k z1 z2 hdx hm, C02_np_tf_zero_distance_identity u dx lam k hdx hm,
+    C02_np_tf_negative_distance_undoes u dx lam k z1 hdx hm⟩
+
+/-- the regenerated `custom` called without a kernel (`kernel = None`: ones) and without an aperture is the identity -/
+theorem C02_gen_custom_without_kernel_is_identity {n m : Nat} (u : CGrid ℝ n m) : customOnesT u (CGrid.const 1) = u := by
+  rw [gen_customOnesT_eq, custom_const_one]; exact customNoAp_one u
+
+/-- the DEFAULT call of the regenerated torch `propagate_beam` (`zero_padding = [True, False, True]`: `zero_pad`, kernel of the
+    doubled size, `crop_center`) at distance 0 returns the field itself, at every resolution (even, odd, non-square): the padded
+    propagation is the identity and `crop_center (zero_pad u) = u` sample for sample (regenerated index expressions) -/
+theorem C02_gen_default_padding_zero_distance_identity {n m : Nat} (u : CGrid ℝ n m) (Kc : CGrid ℝ (2 * n) (2 * m))
+    (dx lam k : ℝ) (s0 s1 s2 s3 : Nat) :
+    propagateBeamT_TFT "Angular Spectrum" u (CGrid.const 1) Kc dx lam k 0 s0 s1 s2 s3 = some u ∧
+    propagateBeamT_TFT "Transfer Function Fresnel" u (CGrid.const 1) Kc dx lam k 0 s0 s1 s2 s3 = some u := by
+  obtain ⟨h1, _, h3⟩ := gen_propagateBeamT_default u Kc dx lam k 0 s0 s1 s2 s3
+  obtain ⟨a0, b0, _⟩ := C02_zero_distance_identity (padGrid u) dx lam k
+  rw [h1, h3, a0, b0, cropGrid_padGrid]
+  exact ⟨rfl, rfl⟩
+
+/-- through the regenerated dispatch of torch `propagate_beam` (no padding, default aperture): two calls with the
+    angular-spectrum type compose -/
+theorem C02_gen_propagate_beam_composes {n m : Nat} (u Kc : CGrid ℝ n m) (dx lam k z1 z2 : ℝ) (s0 s1 s2 s3 : Nat) :
+    (propagateBeamT_FFF "Angular Spectrum" u (CGrid.const 1) Kc dx lam k z1 s0 s1 s2 s3).bind
+      (fun v => propagateBeamT_FFF "Angular Spectrum" v (CGrid.const 1) Kc dx lam k z2 s0 s1 s2 s3)
+      = propagateBeamT_FFF "Angular Spectrum" u (CGrid.const 1) Kc dx lam k (z1 + z2) s0 s1 s2 s3 := by
+  have h : ∀ (v : CGrid ℝ n m) (z : ℝ),
+      propagateBeamT_FFF "Angular Spectrum" v (CGrid.const 1) Kc dx lam k z s0 s1 s2 s3 = some (torchAS v dx lam z) := by
+    intro v z; simp [gen_beamCore_eq, torchBeamCore, torchKernel, custom_const_one, torchAS]
+  simp only [h, Option.bind_some, (C02_two_steps_compose u dx lam k z1 z2).1]
 
 end Odak
